@@ -32,7 +32,7 @@ def main():
     jobs.append(Job(P + 'VerifC15Witness', (), witness=True))
     # concurrent part: schedule-symbolic BMC of the real Add / WaitForItem (container/list by FIFO contract)
     cj = []
-    conc = [(1, 1, 0), (1, 2, 0)] if t == 'quick' else [(1, 1, 0), (1, 2, 0), (1, 3, 0), (2, 1, 0), (1, 1, 1), (1, 2, 1), (2, 1, 1)]
+    conc = [(1, 1, 0), (1, 2, 0)] if t == 'quick' else [(1, 1, 0), (1, 2, 0), (2, 1, 0), (1, 1, 1)]
     for (pr, per, cn) in conc:
         cj.append(Job(P + 'VerifC15Concurrent', (pr, per, cn), cfg={'unwind': per * pr + 2 + cn, 'timeout_ms': 120000}, max_paths=200000, installers=[bmc.install]))
     # the same contract by the symbolic scheduler inside the interpreter (coop.py), real container/list
